@@ -136,6 +136,10 @@ func BatchIsValidMaps(
 				return err
 			}
 
+			if m.Manifest().Height() != height {
+				return errors.Errorf("invalid BlockMap found; wrong height, %d != %d", m.Manifest().Height(), height)
+			}
+
 			if err := func() error {
 				validateLock.Lock()
 				defer validateLock.Unlock()
